@@ -332,7 +332,7 @@ def rule_t2(ck, prog):
         if not rem_ok:
             probs.append("the remainder is not %s - digit * %s" % (uv, x))
         # leading zeros: a loop whose condition is (uval / x) == 0 and whose body only steps the divisor down
-        lz = [b for b in f.blocks.values() if b.term_kind == "WhileStmt" and b.cond is not None and b.cond.k == "BinaryOperator"
+        lz = [b for b in f.blocks.values() if b.term_kind in ("WhileStmt", "ForStmt") and b.cond is not None and b.cond.k == "BinaryOperator"
               and b.cond.get("op") == "==" and C.const_of(b.cond.child(1)) == 0 and is_quot(b.cond.child(0), uv)]
         if len(lz) != 1:
             probs.append("leading zeros are not skipped by `while (%s / %s == 0)`" % (uv, x))
